@@ -166,8 +166,22 @@ def run_impl_all(cases, procs=None):
     procs = procs or min(16, os.cpu_count() or 4)
     if len(cases) < 40:
         return [common.run_impl_case(c, timeout=c.get("timeout", 30.0)) for c in cases]
+    # a change that makes the implementation hang on ordinary inputs must not stall the check for hours:
+    # once far more cases time out than ever do on a sound tree, the rest is not run (see mass_timeouts)
+    out = []
+    budget = max(20, len(cases) // 200)
+    nto = 0
     with multiprocessing.Pool(procs, initializer=_impl_init, maxtasksperchild=200) as pool:
-        return pool.map(_impl_worker, cases, chunksize=max(1, min(25, len(cases) // (procs * 8))))
+        for r in pool.imap(_impl_worker, cases, chunksize=max(1, min(25, len(cases) // (procs * 8)))):
+            out.append(r)
+            if r.get("status") == "TIMEOUT":
+                nto += 1
+                if nto > budget:
+                    pool.terminate()
+                    break
+    while len(out) < len(cases):
+        out.append({"status": "TIMEOUT", "skipped": True})
+    return out
 
 
 def run_model_all(cases, procs=None):
@@ -228,6 +242,13 @@ def main():
     else:
         b.theorems = ["(skipped)"]
     escalate = bool(b.fingerprint_drift) or bool(b.generated_changed) or not b.proof_ok or not b.translator_ok
+    # from here on only the harness, the driver and the implementation run: bound the address space so that an
+    # implementation that hoards memory fails with MemoryError (a CRASH record) instead of taking the check down
+    try:
+        import resource
+        resource.setrlimit(resource.RLIMIT_AS, (12 << 30, 12 << 30))
+    except Exception:
+        pass
     tier = a.tier
     n = P.thorough_n if (tier == "thorough" or escalate) else P.quick_n
     rng = random.Random(seed)
@@ -277,8 +298,15 @@ def main():
                 known_hits.setdefault(tag, (k, c, desc))
             else:
                 violations.append((c, None, tag, desc))
+    # mass time-outs: the model answered, the implementation did not, far more often than on any sound tree
+    ntimeouts = sum(1 for i in impls if i["status"] == "TIMEOUT" and not i.get("skipped"))
+    if ntimeouts > max(20, len(cases) // 200):
+        for c, m, i in zip(cases, models, impls):
+            if i["status"] == "TIMEOUT" and not i.get("skipped") and m["status"] in ("OK", "CE"):
+                violations.append((c, i, "mass_timeouts", "%d cases did not finish within their time bound (the model answers %s for this one)" % (ntimeouts, m["status"])))
+                break
     # metamorphic / multi-run oracles of the property (run on the implementation only)
-    extra = P.extra_checks(rng, tier, escalate)
+    extra = P.extra_checks(rng, tier, escalate) if ntimeouts <= max(20, len(cases) // 200) else {"violations": [], "evaluations": 0, "summary": {"skipped": "mass time-outs"}}
     for (c, tag, desc) in extra.get("violations", []):
         k = match_known(a.prop, tag, known)
         if k:
